@@ -65,6 +65,8 @@ def translate_c_to_projectq(source_circuit):
 
     for gate in source_circuit._gates:
         if gate.name in {"H", "X", "Y", "Z", "S", "T", "MEASURE"}:
+            if len(gate.target) != 1:
+                raise ValueError(f"Gate '{gate.name}' on {len(gate.target)} targets not supported on backend projectQ")
             projectq_circuit += f"{GATE_PROJECTQ[gate.name]} | Qureg[{gate.target[0]}]\n"
         elif gate.name in {"RX", "RY", "RZ", "PHASE"}:
             projectq_circuit += f"{GATE_PROJECTQ[gate.name]}({gate.parameter}) | Qureg[{gate.target[0]}]\n"
